@@ -34,6 +34,8 @@ def eval_text(eng, st, fid, text, extra=None):
     if gf:
         for k, v in gf.items():
             eng.setvar(st, sub, k, v)
+    for k, v in st.tags.get("ghosts", {}).items():
+        eng.setvar(st, sub, k, v)
     if extra:
         for k, v in extra.items():
             eng.setvar(st, sub, k, v)
@@ -163,6 +165,7 @@ def prove_unit(eng: Engine, unit: Unit, prop: str):
     entry = st.copy()
     eng.entry_state = entry
     eng.entry_fid = fid
+    genv.update(_olds(eng, unit, entry, fid))  # old_<param> is visible to loop invariants too
     outs = eng.exec_block(fnode.body, st, fid)
     nret = 0
     for s2, oc in outs:
@@ -178,9 +181,25 @@ def prove_unit(eng: Engine, unit: Unit, prop: str):
         extra.update(_olds(eng, unit, entry, fid))
         if unit.post_hook:
             unit.post_hook(eng, s2, fid, res, entry)
-        for label, text in unit.ensures:
+        for cite in unit.cites:
+            # instantiate a lemma proved under its own unit (generic in its array/scalar parameters)
+            lem = eng.contracts_all.get(cite["lemma"])
+            if lem is None:
+                raise Unsupported(f"cited lemma {cite['lemma']} has no unit")
+            binds = {k: eval_text(eng, s2, fid, t, extra) for k, t in cite["bind"].items()}
+            env2 = dict(extra)
+            env2.update(binds)
+            for label, text in lem.ensures:
+                val = eval_text(eng, s2, fid, text, env2)
+                s2.assume(eng.truthy(s2, val))
+            eng.trusted_calls.add(f"lemma {cite['lemma']} (proved by induction under its own unit)")
+        ens = list(unit.ensures)
+        if unit.opts.get("lazy_lemmas"):
+            # cut lemmas over the function's locals (role-bound from the source), proved first
+            ens = [(l, t) for l, t in unit.opts["lazy_lemmas"](mod).items()] + ens
+        for label, text in ens:
             val = eval_text(eng, s2, fid, text, extra)
-            eng.oblige(s2, "post", label, eng.truthy(s2, val))
+            eng.oblige(s2, "lemma" if label.startswith("lemma.") else "post", label, eng.truthy(s2, val))
     if nret == 0 and not unit.opts.get("may_not_return"):
         eng.notes.append(f"{unit.id}: no returning path")
     return outs
